@@ -435,6 +435,22 @@ def stepWasm (st : WState) (line : String) : WState × String :=
       let upd (ap : DApp) : DApp := { ap with ch := { ap.ch with ext := { ap.ch.ext with
         syms := (key, a 4) :: (sym, a 4) :: ap.ch.ext.syms } } }
       ({ st with apps := st.apps.map upd }, "bound " ++ a 4)
+    | "bind2x" =>
+      let key := "i2:" ++ a 1 ++ ":" ++ real (a 2) ++ ":" ++ a 3
+      let upd (ap : DApp) : DApp := { ap with ch := { ap.ch with ext := { ap.ch.ext with syms := (key, a 4) :: ap.ch.ext.syms } } }
+      ({ st with apps := st.apps.map upd }, "bound " ++ a 4)
+    | "store-c" =>
+      match Registry.storeCode ⟨app.codes, app.codeBase.length⟩ (real "creator") (fun _ => (unhex (a 2)).getD []) with
+      | .ok (id, _) =>
+        -- the code's own checksum overrides the generator's
+        let st' : WState := { st with chks := (id, (unhex (a 2)).getD []) :: st.chks }
+        let cd : CodeData := { creator := real "creator", checksum := (unhex (a 2)).getD [], sourceId := app.codeBase.length }
+        let app' : DApp := { app with codes := Registry.insert app.codes id cd, codeBase := app.codeBase ++ [scripted (a 1)],
+                                       ch := { app.ch with ext := { app.ch.ext with
+                                         tags := (id, a 1) :: (id + 1000000, real "creator" ++ "," ++ a 2) :: app.ch.ext.tags } } }
+        (setApp st' app', "id " ++ toString id)
+      | .panic => (st, "panic")
+      | _ => (st, "err")
     | "bindc" =>
       match (a 1).toNat?, unhex (a 2) with
       | some n, some h => ({ st with chks := (n, h) :: st.chks }, "bound " ++ a 2)
